@@ -55,8 +55,10 @@ func (its *Manager) GetLatestDatatype() (iface.Datatype, uint64, errors.OrdaErro
 		if err = datatype.SetMetaAndSnapshot([]byte(snapshotDoc.Meta), snapshotDoc.Snapshot); err != nil {
 			return nil, 0, err
 		}
-		datatype.ResetWired()
 	}
+	// the copy is rebuilt from what is stored: the snapshot operation that the fresh instance issued
+	// for itself when it was created must not stay in its buffer (it would be pushed with the next patch)
+	datatype.ResetWired()
 	opList, sseqList, err := its.managers.Mongo.GetOperations(its.ctx, its.datatypeDoc.DUID, lastSseq+1, constants.InfinitySseq)
 	if err != nil {
 		return nil, 0, err
